@@ -7,7 +7,7 @@
    stays below the 16-bit length fields).  For EVERY bit string shorter than 65000 bytes the outcome is
    a buffer or RuleIDMatchError.  Only statements; proofs in theories/SchcTotal.v. *)
 From Coq Require Import ZArith List Bool.
-From MS Require Import PyBase Bits Schc SchcSpec SchcRules Compute SchcTotal.
+From MS Require Import PyBase Buffer Bits BufferAbs Schc SchcSpec SchcRules Compute SchcTotal SchcBytes SchcRefine ComputeBytes TotalBytes.
 Import ListNotations.
 Open Scope Z_scope.
 
@@ -32,7 +32,16 @@ Theorem c20_manager_total rules s d : (forall r, In r rules -> rule_total_ok d r
   (exists p, cm_decompress compute_functions rules s d = Ok p) \/
   cm_decompress compute_functions rules s d = Exc RuleIDMatchError \/ rules = [].
 Proof. exact (c20_manager rules s d). Qed.
+(* the same for the byte-level decompressor with its compute stage, on a canonical SCHC packet Buffer and a canonical rule *)
+Theorem c20_rule_total_bytes s r d : canon s -> canon_rule r ->
+  forallb (cda_typed compute_functions) (select_fds d (rule_fds (abs_rule abs r))) = true ->
+  stack_shaped (select_fds d (rule_fds (abs_rule abs r))) -> blen s < 8 * 65000 ->
+  (forall rf, In rf (select_fds d (rule_fds (abs_rule abs r))) -> r_cda rf = Compute -> r_len rf = compute_len (r_id rf)) ->
+  static_bits (select_fds d (rule_fds (abs_rule abs r))) <= 4280 ->
+  exists x, bdecompress_c s r d = Ok x /\ canon x.
+Proof. exact (bdecompress_c_total s r d). Qed.
 Print Assumptions c20_fields.
 Print Assumptions c20_nocompute_total.
 Print Assumptions c20_rule_total.
 Print Assumptions c20_manager_total.
+Print Assumptions c20_rule_total_bytes.
